@@ -21,8 +21,23 @@ visitor inventories of `Generated/PyExpr.lean` and by the correspondence streams
   need a model of CPython's parser); it is checked on every run by the harness stream
   `corr.guards-predict-roundtrip` on all generated expressions for which the guards below hold.
 
-Every theorem quantifies over **all** expressions of the inductive type `Expr` (unbounded depth; proofs by
-structural recursion over the mutual/nested syntax).
+* `findIdentifiers b` is what `PythonCode(b)` computes (declared / undeclared), `fetched b` what
+  `write_variable_declares` turns into context look-ups; `Spec.freeNames`/`Spec.boundNames` is Python's scoping
+  (compared with `symtable` every run);
+* `adjustWhitespace` / `flushLoop` are `pygen.adjust_whitespace` / `PythonPrinter._flush_adjusted_lines`;
+  `Spec.multiFlags` is an independent tokenizer-level reading of "this line starts inside a string literal or after a
+  backslash continuation", `Spec.remargin` / `Spec.reindent` / `Spec.roundtrip` what re-margining must do given that.
+
+Every theorem quantifies over **all** expressions / statement blocks of the inductive types (unbounded depth; proofs
+by structural recursion over the mutual/nested syntax) or over **all** texts / lists of lines.
+
+What is OPEN today (each with a `_partial` theorem, a `_counterexample` theorem and recorded findings):
+`print_total` (bare `yield`), `print_complete` (`:=`, `await`, `yield from`, f-strings, `async for`),
+`print_well_parenthesised` (`yield`, decimal integer before `.attr`, slices in a tuple, a lambda / conditional
+expression pasted as filter callee), `adjust_ws_spec` and `flush_adjusted_spec` (the two line state machines against
+ordinary string literals, escapes, comments), `identifiers_exact` (comprehension variables, default values,
+decorators, classes, nested-function locals, `del`).  Unguarded: `print_balanced`, the side conditions, and the
+theorems about `Spec.remargin` / `Spec.reindent` / `Spec.roundtrip` themselves.
 
 `OPEN` marks a full-strength statement that is false of the code as it stands: the `_partial` theorem carries an
 explicit decidable guard, the `_counterexample` theorem shows the model violating the full statement on a witness
@@ -126,22 +141,18 @@ theorem print_balanced (e : Expr) (t : Toks) (hp : print e = some t) : ∀ d, ba
    slice is parenthesised where it must not be; a lambda / conditional expression used as a *filter* is pasted bare in
    front of `(…)` by codegen.  Repaired: conditional expressions and lambdas as operands (359f1bb). -/
 
-/-- **print_well_parenthesised_partial.** For every node `e`, every child `c` sitting in a slot `p` in which a
-bare expression of `c`'s class would not survive stands there (`inSlot`: its own text, parenthesised by the parent
-when the slot is written through `visit_operand` and `c` is a conditional expression or lambda) as one
-parenthesised group - provided `slotOK p c`: `c`'s own visitor parenthesises (`wrapping_visitors`), or the slot is
-a `visit_operand` slot and `c` is a conditional expression / lambda. -/
-theorem print_well_parenthesised_partial (e : Expr) (p : Pos) (c : Expr) (t : Toks)
-    (_hc : (p, c) ∈ e.children) (hok : slotOK p c = true) (hn : needsParens p c.ck = true)
-    (hp : print c = some t) : isWrapped (inSlot p c t) = true :=
+/-- **print_well_parenthesised_partial.** For every expression `c` and every slot `p` - a child slot of any
+parent node (`(p, c) ∈ e.children`) or one of the two places where mako pastes a re-emitted expression
+(`rootDefault`, `rootFilter`) - in which a bare expression of `c`'s class would not survive: what stands in the slot
+(`inSlot p c t`: `c`'s own text, parenthesised by the parent when the slot is written through `visit_operand` and `c`
+is a conditional expression or lambda) is one parenthesised group - provided `slotOK p c`: `c`'s own visitor
+parenthesises (`wrapping_visitors`), or `p` is a `visit_operand` slot and `c` a conditional expression / lambda.
+That `inSlot p c t` is what the printed parent contains at `p` is `print_places_operands` /
+`print_contains_operand_lists`. -/
+theorem print_well_parenthesised_partial (p : Pos) (c : Expr) (t : Toks)
+    (hok : slotOK p c = true) (hn : needsParens p c.ck = true) (hp : print c = some t) :
+    isWrapped (inSlot p c t) = true :=
   wrapped_inSlot p c t hok hn hp
-
-/-- the same for the two places where mako pastes a re-emitted expression: a parameter default and the callee
-of a filter call (neither is a `visit_operand` slot) -/
-theorem print_root_well_parenthesised_partial (p : Pos) (e : Expr) (t : Toks)
-    (hok : slotOK p e = true) (hn : needsParens p e.ck = true) (hp : print e = some t) :
-    isWrapped (inSlot p e t) = true :=
-  wrapped_inSlot p e t hok hn hp
 
 /-- non-trivial instances: in `(a + b) * c` the left operand needs parentheses and its visitor supplies them; in
 `(a if b else c) + d` and `(lambda: a)(b)` the parent supplies them -/
@@ -164,7 +175,7 @@ example :
 `inSlot` of the child: the printed text of an attribute access, a subscription, a call, a unary/binary operation,
 a conditional expression and a starred element, in terms of the children's texts.  (For the list-valued
 `visit_operand` slots - operands of `and`/`or`, comparators, comprehension iterables and conditions, `**d` entries -
-see `print_places_operand_lists`.) -/
+see `print_contains_operand_lists`.) -/
 theorem print_places_operands :
     (∀ v a T, hasVisitor .attribute = true → print (.attribute v a) = some T →
       ∃ t, print v = some t ∧ T = inSlot .attrValue v t ++ [.sep ['.'], .leaf a])
@@ -214,11 +225,13 @@ theorem print_places_operands :
     simp only [print, hv, if_true, bind, Option.bind_eq_some_iff, pure, Option.some.injEq] at h
     obtain ⟨t, ht, rfl⟩ := h; exact ⟨t, ht, by simp [inSlot, operandSlot]⟩
 
-/-- **print_places_operand_lists.** The same for the list-valued `visit_operand` slots (induction over the lists):
-in the printed text `T` of the parent, every operand of `and`/`or`, every comparator that is printed, the iterable
-and every condition of every comprehension clause, and the value of every `**d` entry of a dict display stands as
-`inSlot` of that child - a contiguous part of `T` (`<:+:`). -/
-theorem print_places_operand_lists :
+/-- **print_contains_operand_lists.** For the list-valued `visit_operand` slots (induction over the lists): the
+printed text `T` of the parent *contains* `inSlot` of the child as a contiguous part (`<:+:`) - for every operand of
+`and`/`or`, every comparator that is printed, the iterable and every condition of every comprehension clause, and
+the value of every `**d` entry of a dict display.  This is containment, not position: that the part sits between the
+right operator tokens is what the correspondence stream `corr.print` compares (string equality with the real
+printer on every generated expression); for the fixed-arity slots `print_places_operands` gives the exact shape. -/
+theorem print_contains_operand_lists :
     (∀ op vs T, hasVisitor .boolOp = true → print (.boolOp op vs) = some T → ∀ v ∈ vs,
       ∃ t, print v = some t ∧ inSlot (boolSlot op) v t <:+: T)
     ∧ (∀ l ops cs T, hasVisitor .compare = true → print (.compare l ops cs) = some T →
